@@ -37,6 +37,7 @@ var registry = map[string]entry{
 	"C30": {"exploration", props.C30},
 	"C31": {"exploration", props.C31},
 	"C32": {"exploration", props.C32},
+	"C36": {"exploration", props.C36},
 	"C28": {"exploration", props.C28},
 	"C20": {"exploration", comp.C20},
 	"C21": {"exploration", comp.C21},
